@@ -1,6 +1,7 @@
 """C01 — validation verdict equals the declared schema semantics (pandas)."""
 from __future__ import annotations
 
+import itertools
 import json
 
 from . import absdata as A
@@ -38,7 +39,8 @@ def builtin_sweep(rep, rng, n):
         cs = A.gen_check(rng, dtype)
         cs["ignoreNa"] = False
         vals = list(A.POOL[dtype]) + ([A.NULL] if A.can_null(dtype) else [])
-        cases.append({"mode": "builtin", "b": cs["b"], "vals": vals, "dtype": dtype, "cs": cs})
+        cases.append({"mode": "builtin", "b": cs["b"], "vals": vals, "dtype": dtype, "cs": cs,
+                      "alias": next(iter(cs["b"])) in ("eq", "ne", "gt", "ge", "lt", "le", "inRange") and rng.random() < 0.5})
     ans = run_driver("C01", [{"mode": "builtin", "b": c["b"], "vals": c["vals"]} for c in cases])
     for c, a in zip(cases, ans):
         if "error" in a:
@@ -47,27 +49,61 @@ def builtin_sweep(rep, rng, n):
         try:
             with warnings.catch_warnings():
                 warnings.simplefilter("ignore")
-                out = A.check_of(c["cs"])(A.series_of(c["vals"], c["dtype"])).check_output
+                out = A.check_of(c["cs"], alias=c["alias"])(A.series_of(c["vals"], c["dtype"])).check_output
             impl = [bool(x) for x in out.tolist()]
         except Exception as e:  # noqa: BLE001
             impl = None
         doc = a["doc"]
-        rep.count("builtin:" + next(iter(c["b"])))
+        rep.count("builtin:" + next(iter(c["b"])) + (":alias" if c["alias"] else ""))
         rep.evaluations += 1
         if impl is None:
             if all(d is not None for d in doc):
-                rep.property_failure({k: c[k] for k in ("b", "vals", "dtype")},
+                rep.property_failure({k: c[k] for k in ("b", "vals", "dtype", "alias")},
                                      "built-in check raised where the documented predicate is defined")
             continue
         if any(d is None for d in doc):
             continue
         if impl != doc:
             bad = [(v, i, d) for v, i, d in zip(c["vals"], impl, doc) if i != d]
-            rep.property_failure({k: c[k] for k in ("b", "vals", "dtype")},
+            rep.property_failure({k: c[k] for k in ("b", "vals", "dtype", "alias")},
                                  f"built-in check differs from its documented predicate on {bad[:3]}")
         elif a["gen"] != doc:
-            rep.correspondence_break({k: c[k] for k in ("b", "vals", "dtype")},
+            rep.correspondence_break({k: c[k] for k in ("b", "vals", "dtype", "alias")},
                                      "generated expression differs from docPred although the implementation agrees")
+
+
+def tzaware_unit_sweep(rep):
+    """time-zone aware datetime dtypes carry a resolution: a declared `datetime64[u, tz]` is satisfied by data of that very
+    dtype only — through a Column, a SeriesSchema and an Index, with the dtype spelled as text and as a pandas object"""
+    import warnings
+    import pandas as pd
+    import pandera as pa
+    units, zones = ["s", "ms", "us", "ns"], ["UTC", "Europe/Berlin"]
+    base = pd.Series(pd.to_datetime(["2020-01-01 00:00:00", "2021-06-30 12:00:00"]))
+    for du, dz, au, az, spelled in itertools.product(units, zones, units, zones, ("text", "object")):
+        declared = f"datetime64[{du}, {dz}]"
+        data = base.dt.tz_localize("UTC").dt.tz_convert(az).astype(f"datetime64[{au}, {az}]")
+        dt = declared if spelled == "text" else pd.DatetimeTZDtype(du, dz)
+        want = (du, dz) == (au, az)
+        for entry, run_ in (("Column", lambda: pa.DataFrameSchema({"a": pa.Column(dt)}).validate(pd.DataFrame({"a": data}))),
+                            ("SeriesSchema", lambda: pa.SeriesSchema(dt).validate(data)),
+                            ("Index", lambda: pa.DataFrameSchema(index=pa.Index(dt)).validate(pd.DataFrame({"v": [1, 2]}, index=pd.Index(data))))):
+            case = {"mode": "tzaware-unit", "declared": declared, "data": str(data.dtype), "entry": entry, "spelled": spelled}
+            with warnings.catch_warnings():
+                warnings.simplefilter("ignore")
+                try:
+                    run_()
+                    got = True
+                except (pa.errors.SchemaError, pa.errors.SchemaErrors):
+                    got = False
+                except Exception as e:  # noqa: BLE001
+                    rep.count("tzaware-unit:crash:" + type(e).__name__)
+                    continue
+            rep.evaluations += 1
+            rep.count(f"tzaware-unit:{'accept' if got else 'reject'}")
+            if got != want:
+                rep.property_failure(case, f"{entry} declared {declared} ({spelled}) {'accepts' if got else 'rejects'} data of dtype "
+                                           f"{data.dtype}")
 
 
 def series_sweep(rep, rng, n):
@@ -468,9 +504,10 @@ def run(tier, replay=None):
         if cases[0].get("mode") == "series":
             series_sweep(rep, rng_for(PROP, "series"), 400)
             return rep.finish(rule="replay of the series sweep (deterministic under VERIF_SEED)")
-        if cases[0].get("mode") in ("aggregate", "nullability", "builtin") or "b" in cases[0]:
+        if cases[0].get("mode") in ("aggregate", "nullability", "builtin", "tzaware-unit") or "b" in cases[0]:
             aggregate_sweep(rep, rng_for(PROP, "aggregate"), 150)
             nullability_sweep(rep)
+            tzaware_unit_sweep(rep)
             builtin_sweep(rep, rng_for(PROP, "builtin"), 400)
             return rep.finish(rule="replay of the sweeps (deterministic under VERIF_SEED)")
     else:
@@ -480,6 +517,7 @@ def run(tier, replay=None):
         builtin_sweep(rep, rng_for(PROP, "builtin"), 400 if tier == "quick" else 8000)
         aggregate_sweep(rep, rng_for(PROP, "aggregate"), 150 if tier == "quick" else 3000)
         nullability_sweep(rep)
+        tzaware_unit_sweep(rep)
         series_sweep(rep, rng_for(PROP, "series"), 400 if tier == "quick" else 10000)
         multiindex_sweep(rep, rng_for(PROP, "multiindex"), 300 if tier == "quick" else 8000)
         unique_groups_sweep(rep, rng_for(PROP, "unique-groups"), 300 if tier == "quick" else 6000)
